@@ -20,7 +20,7 @@ from ..consteval import ConstEval, Unknown, OpaqueBytes
 from ..flow import Sym, fpaths
 from ..model import FuncInfo, attr_chain, norm, walk_no_nested
 from ..report import Checker
-from .forward import forward_sites_check, eval_response_constant
+from .forward import forward_sites_check, opaque_relay_check, eval_response_constant
 
 
 def run(ch: Checker) -> None:
@@ -34,6 +34,7 @@ def run(ch: Checker) -> None:
                      'on_request_complete (no handler lets control reach connect_upstream or a normal return); connect_upstream is reached only after the loop ran to exhaustion; '
                      'only on_request_complete calls connect_upstream and only connect_upstream creates/acquires upstream connections', 4)
     ch.rule('C08.4', 'ProxyAuthenticationFailed.response returns a packet with status 407, a Proxy-Authenticate header and Connection: close', 2)
+    ch.rule('C08.6', 'outside a CONNECT tunnel client bytes reach the upstream unparsed (credentials included) only under an upgrade state that is revoked when the upstream answers anything but 101', 1)
     ch.rule('C08.5', 'at every site that queues a rebuilt request to the upstream, del_headers([proxy-authorization, proxy-connection]) ran on that parser on every path '
                      'and build() receives disable_headers=flags.disable_headers', 2)
 
@@ -240,6 +241,7 @@ def run(ch: Checker) -> None:
 
     # ---------------- C08.5
     forward_sites_check(ch, 'C08.5', want_via=False)
+    opaque_relay_check(ch, 'C08.6')
 
 
 def _is_parts(e: ast.AST, req: str, m: Any, ce: ConstEval) -> bool:
